@@ -29,10 +29,10 @@ theorem limits_code : Limits.code.chunk = Gen.Mux.maxPacketSize - Gen.Mux.packet
 /-- the functions the hand model follows -/
 theorem src_pinned :
     Gen.Mux.src_split = "if len(buf) == 0 { return [][]byte{buf} }; var chunk []byte; chunks := make([][]byte, 0, len(buf) / lim + 1); for ; len(buf) >= lim;  { chunk, buf = buf[:lim], buf[lim:]; chunks = append(chunks, chunk) }; if len(buf) > 0 { chunks = append(chunks, buf[:]) }; return chunks" ∧
-    Gen.Mux.src_queueSends = "defer lib.TimeTrack(s.logger, time.Now(), time.Second); s.mu.Lock(); defer s.mu.Unlock(); for _, packet := range packets { ok := s.queueSend(packet, sendStart, metrics); if !ok { return false } }; return true" ∧
+    Gen.Mux.src_queueSends = "defer lib.TimeTrack(s.logger, time.Now(), time.Second); s.mu.Lock(); defer s.mu.Unlock(); for i, packet := range packets { ok := s.queueSend(packet, sendStart, metrics); if !ok { return false, i > 0 } }; return true, false" ∧
     Gen.Mux.src_queueSend = "if s.closed { return false }; queueStart := time.Now(); pwt := &PacketWithTiming{packet: p, sendStart: sendStart, queueStart: queueStart}; select { case s.sendQueue <- pwt: return true; case <-time.After(queueSendTimeout): if metrics != nil { metrics.SendQueueTimeout.Inc(); metrics.SendQueueFull.WithLabelValues(lib.Topic_name[int32(p.StreamId)]).Inc() }; return false }" ∧
     Gen.Mux.src_handlePacket = "assemblyStart := time.Now(); msgAssemblerLen, packetLen := len(s.msgAssembler), len(packet.Bytes); if int(maxMessageSize) < msgAssemblerLen + packetLen { s.msgAssembler = s.msgAssembler[:0]; return MaxMessageExceededSlash, ErrMaxMessageSize() }; s.msgAssembler = append(s.msgAssembler, packet.Bytes...); if packet.Eof { msg := make([]byte, len(s.msgAssembler)); copy(msg, s.msgAssembler); m := &lib.MessageAndMetadata{Message: msg, Sender: peerInfo}; if metrics != nil { metrics.ReceiveAssemblyTime.Observe(time.Since(assemblyStart).Seconds()) }; select { case s.inbox <- m: if len(s.inbox) > maxInboxQueueSize / 4 { s.logger.Errorf(\"OVERSIZE INBOX: %d\", len(s.inbox)) }; default: s.logger.Errorf(\"CRITICAL: Inbox %s queue full in receive service\", lib.Topic_name[int32(packet.StreamId)]); s.logger.Error(\"Dropping newest message\") }; s.msgAssembler = s.msgAssembler[:0] }; return 0, nil" ∧
-    Gen.Mux.src_Send = "defer lib.TimeTrack(c.log, time.Now(), time.Second); startTime := time.Now(); stream, ok := c.streams[topic]; if !ok { c.log.Errorf(\"Stream %s does not exist\", topic); return }; chunks := split(bz, int(maxDataChunkSize)); var packets []*Packet; for i, chunk := range chunks { packets = append(packets, &Packet{StreamId: topic, Eof: i == len(chunks) - 1, Bytes: chunk}) }; if c.p2p.metrics != nil { c.p2p.metrics.MessageSize.Observe(float64(len(bz))); c.p2p.metrics.PacketsPerMessage.Observe(float64(len(packets))) }; ok = stream.queueSends(packets, startTime, c.p2p.metrics); if !ok { c.log.Errorf(\"Packet(ID:%s) packet failed in queue for: %s\", lib.Topic_name[int32(topic)], lib.BytesToTruncatedString(c.Address.PublicKey)) }; return" :=
+    Gen.Mux.src_Send = "defer lib.TimeTrack(c.log, time.Now(), time.Second); startTime := time.Now(); stream, ok := c.streams[topic]; if !ok { c.log.Errorf(\"Stream %s does not exist\", topic); return }; chunks := split(bz, int(maxDataChunkSize)); var packets []*Packet; for i, chunk := range chunks { packets = append(packets, &Packet{StreamId: topic, Eof: i == len(chunks) - 1, Bytes: chunk}) }; if c.p2p.metrics != nil { c.p2p.metrics.MessageSize.Observe(float64(len(bz))); c.p2p.metrics.PacketsPerMessage.Observe(float64(len(packets))) }; var partial bool; ok, partial = stream.queueSends(packets, startTime, c.p2p.metrics); if !ok { c.log.Errorf(\"Packet(ID:%s) packet failed in queue for: %s\", lib.Topic_name[int32(topic)], lib.BytesToTruncatedString(c.Address.PublicKey)); if partial { c.Error(ErrFailedWrite(io.ErrShortWrite)) } }; return" :=
   ⟨rfl, rfl, rfl, rfl, rfl⟩
 
 /-- the receive loop's dispatch, which queues the send loop serves, which ids get a stream and which an inbox -/
@@ -56,7 +56,8 @@ theorem packets_reassemble (L : Limits) (t : Nat) (m : Bytes) (h : m.length ≤ 
 
 /-! ## delivery -/
 
-/-- **delivery.** For EVERY history (every set of sends on every topic, every schedule of the send
+/-- **delivery_partial** (for any limits, with or without the repair; carries `EnqueueAtomic` explicitly
+and adds the no-silent-loss clauses). For EVERY history (every set of sends on every topic, every schedule of the send
 loop, every network timing, every consumer timing) in which each enqueue is all-or-nothing
 (`EnqueueAtomic`) and each send is within the statement (`SendsValid`: a real stream id, size ≤ limit):
 the connection is never closed, and for every topic `t` the messages ever appended to `t`'s inbox
@@ -65,7 +66,7 @@ byte-identical to a sent message of that same topic, whole; the rest (`todo`) is
 queued. Nothing else — no truncation, no merge, no other topic's bytes — is ever delivered.
 Moreover (no silent loss): once nothing of `t` is pending, `done` is everything; and if `t` has an
 inbox and at most `inboxCap` messages were sent on it, nothing was dropped at all. -/
-theorem delivery (L : Limits) (ops : List MuxOp) (hA : EnqueueAtomic ops) (hV : SendsValid L ops) (t : Nat) :
+theorem delivery_partial (L : Limits) (ops : List MuxOp) (hA : EnqueueAtomic ops) (hV : SendsValid L ops) (t : Nat) :
     (Conn.run L Conn.init ops).r.closed = none ∧
     ∃ done todo, sentOn t ops = done ++ todo ∧
       ((Conn.run L Conn.init ops).r.log.get t).Sublist done ∧
@@ -86,11 +87,47 @@ theorem delivery_complete (L : Limits) (ops : List MuxOp) (hA : EnqueueAtomic op
     (hp : pending (Conn.run L Conn.init ops) t = []) (ht : t < L.inboxTopics)
     (hc : (sentOn t ops).length ≤ L.inboxCap) :
     (Conn.run L Conn.init ops).r.log.get t = sentOn t ops := by
-  obtain ⟨_, done, todo, hs, _, h1, h2⟩ := delivery L ops hA hV t
+  obtain ⟨_, done, todo, hs, _, h1, h2⟩ := delivery_partial L ops hA hV t
   rw [h2 ht hc, hs, h1 hp, List.append_nil]
 
-/-- a small instance of the limits for executable witnesses (2-byte packets, 6-byte messages) -/
-def tiny : Limits := ⟨2, 6, 10, 6, 99, 6, by decide⟩
+/-- GENERATED FACT the full-strength theorem rests on: `Send` ends the connection when `queueSends`
+reports that only a prefix of the message was enqueued (`if partial { c.Error(…) }`). Recomputed from
+`p2p/conn.go` on every run; when false, this theorem and `delivery` no longer check and
+`partial_enqueue_merges` (replayed on the real code in the thorough tier) is the failing input. -/
+theorem tears_down_on_partial : Gen.Mux.partialEnqueueTearsDown = true := by decide
+
+/-- **delivery** (general form): for code that ends the connection on a partial enqueue, NO atomicity
+hypothesis is needed — for EVERY history, including enqueues that time out between packets at any
+point, the connection is never closed by the receiver's checks and for every topic the messages ever
+appended to its inbox are, in order, a subsequence of a prefix of the messages sent on it, each whole
+and byte-identical; everything else is "not at all". -/
+theorem delivery_of_teardown (L : Limits) (hT : L.tearDownOnPartial = true) (ops : List MuxOp)
+    (hV : SendsValid L ops) (t : Nat) :
+    (Conn.run L Conn.init ops).r.closed = none ∧
+    ∃ done todo, sentOn t ops = done ++ todo ∧ ((Conn.run L Conn.init ops).r.log.get t).Sublist done := by
+  by_cases hA : EnqueueAtomic ops
+  · obtain ⟨h1, done, todo, hs, hl, _⟩ := delivery_partial L ops hA hV t
+    exact ⟨h1, done, todo, hs, hl⟩
+  · obtain ⟨ops₁, t0, m, k, ops₂, he, hA₁⟩ := exists_first_partial ops hA
+    subst he
+    have hV₁ : SendsValid L ops₁ := fun o ho => hV o (List.mem_append_left _ ho)
+    obtain ⟨h1, done, todo, hs, hl⟩ := delivery_after_teardown L hT ops₁ ops₂ t0 m k hA₁ hV₁ t
+    refine ⟨h1, done, todo ++ sentOn t (.sendPartial t0 m k :: ops₂), ?_, hl⟩
+    rw [sentOn_append, hs, List.append_assoc]
+
+/-- **delivery** — the statement about the code as it is (limits, topic ids and the teardown fact all
+generated from the source). -/
+theorem delivery (ops : List MuxOp) (hV : SendsValid Limits.code ops) (t : Nat) :
+    (Conn.run Limits.code Conn.init ops).r.closed = none ∧
+    ∃ done todo, sentOn t ops = done ++ todo ∧
+      ((Conn.run Limits.code Conn.init ops).r.log.get t).Sublist done :=
+  delivery_of_teardown Limits.code tears_down_on_partial ops hV t
+
+/-- a small instance of the limits for executable witnesses (2-byte packets, 6-byte messages) (`tearDownOnPartial = false`: the code before the repair) -/
+def tiny : Limits := ⟨2, 6, 10, 6, 99, 6, false, by decide⟩
+
+/-- the same limits for code that ends the connection on a partial enqueue -/
+def tinyFixed : Limits := ⟨2, 6, 10, 6, 99, 6, true, by decide⟩
 
 def okOps : List MuxOp := [.send 0 [1, 2, 3, 4, 5], .send 1 [9, 9, 9], .pick 0, .pick 1, .send 0 [7], .pick 0, .pick 1,
   .deliver, .deliver, .pick 0, .pick 0, .deliver, .deliver, .deliver, .deliver]
@@ -98,7 +135,7 @@ def okOps : List MuxOp := [.send 0 [1, 2, 3, 4, 5], .send 1 [9, 9, 9], .pick 0, 
 /-- A = "AAAA" cut after its first packet, then B = "BB" whole, both scheduled and delivered -/
 def f8Ops : List MuxOp := [.sendPartial 0 [65, 65, 65, 65] 1, .send 0 [66, 66], .pick 0, .pick 0, .deliver, .deliver]
 
-/-- non-vacuity of `delivery`: two topics, interleaved packets of multi-packet messages — hypotheses
+/-- non-vacuity of `delivery_partial` / `delivery`: two topics, interleaved packets of multi-packet messages — hypotheses
 hold, everything arrives intact on its own topic -/
 example :
     EnqueueAtomic okOps ∧ SendsValid tiny okOps ∧
@@ -149,7 +186,7 @@ example : (Receiver.init.run Limits.code [⟨50, true, [1, 2, 3]⟩]).closed = n
 
 /-! ## what happens without `EnqueueAtomic` (DESIGN §8-F8) -/
 
-/-- **partial_enqueue_merges.** `queueSends` gives up after `queueSendTimeout` BETWEEN packets and
+/-- **partial_enqueue_merges** (the code BEFORE the repair, `tearDownOnPartial = false`). `queueSends` gives up after `queueSendTimeout` BETWEEN packets and
 leaves the already queued prefix (no EOF) in flight. Witness: message A = "AAAA" (two packets) is cut
 after its first packet — `Send` reports failure — then B = "BB" is sent whole. The receiver delivers
 ONE message "AABB", which nobody sent: A's orphaned prefix merged with B. -/
@@ -157,6 +194,11 @@ theorem partial_enqueue_merges :
     ¬ EnqueueAtomic f8Ops ∧ SendsValid tiny f8Ops ∧
     (Conn.run tiny Conn.init f8Ops).r.log.get 0 = [[65, 65, 66, 66]] ∧
     [65, 65, 66, 66] ∉ sentOn 0 f8Ops ∧ ([65, 65, 66, 66] : Bytes) ≠ [65, 65, 65, 65] := by decide
+
+/-- with the repair the same history ends the connection on the sending side: B is refused, nothing
+reaches the wire, nothing is delivered -/
+example : (Conn.run tinyFixed Conn.init f8Ops).s.dead = true ∧ (Conn.run tinyFixed Conn.init f8Ops).s.wire = [] ∧
+    (Conn.run tinyFixed Conn.init f8Ops).r.log.get 0 = [] := by decide
 
 /-- the hypothesis is exactly what is missing: with the same two sends enqueued atomically the same
 schedule delivers A and B intact -/
